@@ -156,13 +156,23 @@ def tlc_scenario_to_harness(js, sid, driver):
         if st["step"] == "op":
             sched.append({"k": "b", "p": st.get("p", 1)})
         if st["step"] == "init":
-            for rev, ch in enumerate(st.get("store", []), start=1):
-                if ch != "none":
-                    # the initial ledger of the specification is reached by real operations
-                    sc.setdefault("setup", []).append({"op": "install" if rev == 1 else "upgrade", "chart": ch, "flags": {}})
+            charts = [c for c in st.get("store", [])]
+            used = [i for i, c in enumerate(charts) if c != "none"]
+            sts = st.get("sts", [])
+            # a history that successful operations produce: revisions 1..n, all superseded but the last, which is deployed
+            chain = used == list(range(len(used))) and all(
+                sts[i] == ("deployed" if i == used[-1] else "superseded") for i in used) if sts and used else True
+            if chain:
+                for rev, ch in enumerate(charts, start=1):
+                    if ch != "none":
+                        # the initial ledger of the specification is reached by real operations
+                        sc.setdefault("setup", []).append({"op": "install" if rev == 1 else "upgrade", "chart": ch, "flags": {}})
+            else:
+                # any other ledger is written into release storage record by record
+                sc["preledger"] = [{"rev": i + 1, "st": sts[i], "chart": charts[i]} for i in used]
             for oid, o in st["cluster"].items():
                 if o["own"] != "absent":
-                    if oid in CHARTS.get(next((c for c in st.get("store", []) if c != "none"), ""), {"res": {}})["res"]:
+                    if chain and oid in CHARTS.get(next((c for c in st.get("store", []) if c != "none"), ""), {"res": {}})["res"]:
                         continue      # created by the setup operations
                     sc["pre"].append({"res": oid, "kind": kind_of_id(oid), "own": o["own"], "f1": o["f1"],
                                       "f2": o["f2"], "keep": o["pol"] == "keep"})
